@@ -167,6 +167,57 @@ class FRun:
             pass
 
 
+def with_write_part(rng):
+    """-> (observer traces, meta): Subscriptions / UidList .with_write on a readable, an
+    unreadable and a garbled control file; 'end.released' = no lock file is left behind"""
+    from pymap.backend.maildir.subscriptions import Subscriptions
+    from pymap.backend.maildir.uidlist import UidList
+    obs, meta = [], []
+    cases = [('subscriptions', Subscriptions, 'subscriptions', None),
+             ('subscriptions', Subscriptions, 'subscriptions', b'Box\n'),
+             ('subscriptions', Subscriptions, 'subscriptions', b'\xff\xfe\n'),
+             ('uidlist', UidList, 'dovecot-uidlist', None),
+             ('uidlist', UidList, 'dovecot-uidlist', b''),
+             ('uidlist', UidList, 'dovecot-uidlist', b'garbage without header\n\xff'),
+             ('uidlist', UidList, 'dovecot-uidlist', b'3 V1 N5 G00000000000000000000000000000000\n1 :a\nnot a record\n')]
+    for kind, cls, fname, content in cases:
+        d = tempfile.mkdtemp(prefix='verif.withwrite.')
+        loop = VLoop()
+        ev = []
+        kept: list = []
+        try:
+            if content is not None:
+                with open(os.path.join(d, fname), 'wb') as f:
+                    f.write(content)
+
+            async def once(tag):
+                ev.append({'e': 'begin', 't': tag})
+                try:
+                    async with cls.with_write(d):
+                        ev.append({'e': 'enter', 't': tag, 'k': 'W'})
+                        ev.append({'e': 'exit', 't': tag, 'k': 'W'})
+                except BaseException as exc:   # noqa: BLE001 - the failing read is the point
+                    # the error object stays referenced (as a logged or stored exception
+                    # does): what finalisers would release once it is collected stays held
+                    kept.append(exc)
+                    ev.append({'e': 'fault', 't': tag})
+            for tag in ('t1', 't2'):
+                t = loop.spawn(once(tag), tag)
+                loop.settle(200000, max_vtime=loop.time() + 30)
+                if not t.done():
+                    t.cancel()
+                    loop.settle(200000, max_vtime=loop.time() + 30)
+            left = [x for x in os.listdir(d) if x.endswith('.lock')]
+            ev.append({'e': 'end', 'finished': True, 'released': not left})
+        finally:
+            loop.shutdown()
+            shutil.rmtree(d, ignore_errors=True)
+        obs.append(ev)
+        meta.append({'kind': 'with-write', 'file': kind,
+                     'content': None if content is None else content.decode('latin1')})
+    return obs, meta
+
+
 _ACT = {'BeginA': 'begin', 'Wake': 'wake', 'Exit': 'leave', 'Fault': 'fault'}
 
 
@@ -230,6 +281,12 @@ def run_part(run, tier, rng) -> None:
     finally:
         loop.shutdown()
         shutil.rmtree(d, ignore_errors=True)
+    # the write lock as the maildir backend takes it (with_write of a control file): a section
+    # whose ENTRY fails after the lock was granted - the file cannot be read - is an exit too
+    obs_ww, meta_ww = with_write_part(rng)
+    obs += obs_ww
+    impl += [[{'e': 'init', 'left': {}, 'file': 'none'}] for _ in obs_ww]
+    meta += meta_ww
     verd = tlc.validate_traces('Trace_LockObs.tla', 'Trace_LockObs.cfg', obs)
     vres = verd.pop('_res')
     if len(verd) != len(obs):
@@ -246,6 +303,11 @@ def run_part(run, tier, rng) -> None:
                        nontrivial=waited or faulted)
         if reached < length:
             bad = ev[reached]
+            if meta[i - 1]['kind'] == 'with-write':
+                run.violation(f"with_write({meta[i - 1]['file']}) on content {meta[i - 1]['content']!r}: "
+                              f'observer rejects event {reached + 1}/{length} {bad}: lock file left behind',
+                              {'check': 'C20', 'part': 'with-write', 'meta': meta[i - 1], 'events': ev})
+                continue
             run.violation(f'FileLock: observer rejects event {reached + 1}/{length} {bad}: '
                           + ('two writers hold the lock file at once' if bad['e'] == 'enter'
                              else 'lock file left behind / task stuck' if bad['e'] == 'end' else '?'),
